@@ -79,6 +79,9 @@ func runCmd(dir string, env []string, name string, args ...string) (string, erro
 // timer expires"); retries of timing-dependent replays use a larger scale.
 var replayTimeScale = 1
 
+// replayRace asks native harnesses to force the less likely order of racing events (vr.RaceRetry).
+var replayRace = false
+
 func nativeReplay(prop, pkg string, runs []ReplayRun, file string) (map[string]string, string) {
 	rf := ReplayFile{Property: prop, Runs: runs}
 	b, _ := json.MarshalIndent(rf, "", " ")
@@ -97,6 +100,9 @@ func nativeReplay(prop, pkg string, runs []ReplayRun, file string) (map[string]s
 	os.WriteFile(filepath.Join(work, "overlay.json"), ob, 0o644)
 
 	env := append(goEnv(), "VERIF_REPLAY="+file, fmt.Sprintf("VERIF_TIMESCALE=%d", replayTimeScale))
+	if replayRace {
+		env = append(env, "VERIF_RACE_RETRY=1")
+	}
 	race := false
 	for _, r := range runs {
 		if strings.HasPrefix(r.Msg, "data race") {
@@ -228,6 +234,14 @@ func handleViolations(spec *Spec, ev *Evidence, viols []*Violation) (int, string
 				replayTimeScale = 8
 				res, out = nativeReplay(spec.Property, v.Case.Pkg, []ReplayRun{run}, file)
 				replayTimeScale = 1
+				lastOut = out
+			}
+			if !strings.HasPrefix(res[id], "CONFIRMED") && i < 3 {
+				// racing events: natively the scheduler almost always picks one order; ask the harness
+				// for the other one
+				replayRace = true
+				res, out = nativeReplay(spec.Property, v.Case.Pkg, []ReplayRun{run}, file)
+				replayRace = false
 				lastOut = out
 			}
 			if strings.HasPrefix(res[id], "CONFIRMED") {
